@@ -228,7 +228,7 @@ def r1_verify_before_replace(rep, src):
         for s_ in (guard.ast.left, guard.ast.comparators[0]):
             if isinstance(s_, ast.Subscript) and isinstance(s_.value, ast.Name):
                 table = s_.value.id
-    g.roles = dict(content=content, remote=remote, table=table, hashfns=hashfns, single_defs=single_defs)
+    g.roles = dict(content=content, remote=remote, table=table, hashfns=hashfns, single_defs=single_defs, todo=todo)
     return g
 
 
@@ -602,11 +602,15 @@ def r6_temp_download(rep, src):
         rep.fail('C19.R6', f.site, 'download temporary removed', 'the temporary file of a download is not removed on every exit', where=f.where)
 
 
-def r7_history_order(rep, src):
+def r7_history_order(rep, src, g=None):
     """the chain of patches is the suffix of the history *list* from the first entry whose hash is the
     local hash: order and multiplicity of the entries must survive, so the patch names may only travel
     through ordered, duplicate-preserving containers"""
     f = src.func(SITE)
+    roles = getattr(g, 'roles', None) or {}
+    TODO = roles.get('todo') or 'patches_to_apply'
+    if not TODO.isidentifier():
+        raise AnalysisError('%s: the patches to apply are not held in a local list (%s)' % (f.site, TODO))
     flows = {}      # name -> set of names its value is built from
     kinds = {}      # name -> 'list' | 'keyed'
     for n in walk_no_nested(f.node):
@@ -640,9 +644,9 @@ def r7_history_order(rep, src):
                 kinds.setdefault(name, 'list')
         if isinstance(val, ast.Call) and norm(val.func) in ('sorted', 'reversed', 'set'):
             kinds[name] = 'keyed'
-    if 'patches_to_apply' not in flows and kinds.get('patches_to_apply') != 'list':
+    if TODO not in flows and kinds.get(TODO) != 'list':
         raise AnalysisError('%s: the list of patches to apply was not found' % f.site)
-    seen, todo, via = set(), ['patches_to_apply'], {}
+    seen, todo, via = set(), [TODO], {}
     while todo:
         x = todo.pop()
         if x in seen:
@@ -654,17 +658,25 @@ def r7_history_order(rep, src):
     bad = [x for x in seen if kinds.get(x) == 'keyed']
     if bad:
         chain = [bad[0]]
-        while chain[-1] in via and chain[-1] != 'patches_to_apply':
+        while chain[-1] in via and chain[-1] != TODO:
             chain.append(via[chain[-1]])
         rep.fail('C19.R7', f.site, 'history entries keep order and multiplicity',
                  'the patch chain is built through the keyed/unordered container `%s` (%s): a hash that occurs twice in the history '
                  '(content reverted to an earlier version) loses an entry or its position' % (bad[0], ' → '.join(chain)), where=f.where)
     else:
         rep.ok('C19.R7', f.site, 'history entries keep order and multiplicity',
-               'patches_to_apply is fed from %s through lists only' % sorted(seen - {'patches_to_apply'}))
+               '%s is fed from %s through lists only' % (TODO, sorted(seen - {TODO})))
     # the start of the chain is the entry whose hash equals the local hash
+    hashfns, single_defs, content, remote = roles.get('hashfns') or set(), roles.get('single_defs') or {}, roles.get('content') or 'lines', roles.get('remote') or 'remote_hash'
+
+    def is_local_hash(e):
+        if isinstance(e, ast.Call) and norm(e.func) in hashfns and [norm(a_) for a_ in e.args] == [content]:
+            return True
+        if isinstance(e, ast.Name) and single_defs.get(e.id):
+            return all(isinstance(d_.ast.value, ast.Call) and is_local_hash(d_.ast.value) for d_ in single_defs[e.id])
+        return isinstance(e, ast.Name) and e.id == 'local_hash' and not hashfns
     starts = [n for n in walk_no_nested(f.node) if isinstance(n, ast.Compare) and len(n.ops) == 1 and isinstance(n.ops[0], (ast.Eq, ast.In))
-              and 'local_hash' in (norm(n.left), norm(n.comparators[0])) and 'remote_hash' not in norm(n)]
+              and (is_local_hash(n.left) or is_local_hash(n.comparators[0])) and remote not in (norm(n.left), norm(n.comparators[0]))]
     if starts:
         rep.ok('C19.R7', f.site, 'chain starts at the local version', norm(starts[0]), nontrivial=False)
     else:
@@ -737,5 +749,5 @@ def check(src, rep, tier):
         rep.guard('C19.R4', r4_fallbacks, src, g)
     rep.guard('C19.R5', r5_hash_backends, src)
     rep.guard('C19.R6', r6_temp_download, src)
-    rep.guard('C19.R7', r7_history_order, src)
+    rep.guard('C19.R7', r7_history_order, src, g)
     rep.guard('C19.R8', r8_malformed_entries, src)
